@@ -142,8 +142,10 @@ Lemma code_inverse_ppc : code_inverse PPC.
 Proof. intros start buf. apply bcj_inverse_ppc. Qed.
 Lemma code_inverse_sparc : code_inverse SPARC.
 Proof. intros start buf. apply bcj_inverse_sparc. Qed.
+Lemma code_inverse_ia64 : code_inverse IA64.
+Proof. intros start buf. apply bcj_inverse_ia64. Qed.
 
-Theorem bcj_roundtrip_word : forall a, In a [ARM; ARMT; ARM64; PPC; SPARC] ->
+Theorem bcj_roundtrip_word : forall a, In a [ARM; ARMT; ARM64; PPC; SPARC; IA64] ->
   forall start data, start mod bcj_align a = 0 -> bytes_ok data = true ->
   exists enc,
     bcj_enc_parts a start [data] = Ok enc /\ length enc = length data /\
@@ -154,10 +156,11 @@ Theorem bcj_roundtrip_word : forall a, In a [ARM; ARMT; ARM64; PPC; SPARC] ->
           Ok (data, [], rs', inner').
 Proof.
   intros a Ha. apply bcj_roundtrip.
-  destruct Ha as [<-|[<-|[<-|[<-|[<-|[]]]]]].
+  destruct Ha as [<-|[<-|[<-|[<-|[<-|[<-|[]]]]]]].
   - exact code_inverse_arm.
   - exact code_inverse_armthumb.
   - exact code_inverse_arm64.
   - exact code_inverse_ppc.
   - exact code_inverse_sparc.
+  - exact code_inverse_ia64.
 Qed.
